@@ -13,7 +13,8 @@ SQL = {"mk1": "create table tmp as select a1, a2 from src",
        "mk2": "create table tmp as select b1 from src",
        "use": "insert into out{k} select * from tmp",
        "bad": "select from where",
-       "unsup": "create index idx on src (a1)"}
+       "unsup": "create index idx on src (a1)",
+       "dial": "select a1 into outd from src"}
 BASES = {"p1": {"<default>.src": ["a1", "a2", "b1"]},
          "p2": {"<default>.src": ["a1", "a2", "b1"], "<default>.tmp": ["z1"]}}
 _tl = threading.local()
@@ -101,8 +102,8 @@ def install():
     _installed = True
 
 
-def text_of(script):
-    return ";\n".join(SQL[s].replace("{k}", str(i + 1)) for i, s in enumerate(script))
+def text_of(script, dia="ansi"):
+    return (";\n" if dia == "ansi" else "\n").join(SQL[s].replace("{k}", str(i + 1)) for i, s in enumerate(script))
 
 
 def default_provider():
@@ -130,11 +131,12 @@ class World:
             out[p] = cols if cols else ["*"]
         return out
 
-    def begin(self, r, p, script, silent, fault):
+    def begin(self, r, p, script, silent, fault, dia="ansi"):
+        from sqllineage.config import SQLLineageConfig
         from sqllineage.runner import LineageRunner
         c = Ctl(r, fault)
         self.ctl[r] = c
-        text = text_of(script)
+        text = text_of(script, dia)
         n = len(script)
 
         def body():
@@ -143,8 +145,13 @@ class World:
             if True:
                 try:
                     kw = {} if p == "dflt" else {"metadata_provider": self.prov[p]}
-                    lr = LineageRunner(text, silent_mode=silent, **kw)
-                    paths = lr.get_column_lineage()
+                    if dia == "tsql_ns":
+                        with SQLLineageConfig(TSQL_NO_SEMICOLON=True):
+                            lr = LineageRunner(text, dialect="tsql", silent_mode=silent, **kw)
+                            paths = lr.get_column_lineage()
+                    else:
+                        lr = LineageRunner(text, silent_mode=silent, **kw)
+                        paths = lr.get_column_lineage()
                     tgt = {}
                     for path in paths:
                         last = path[-1]
@@ -156,6 +163,8 @@ class World:
                                 res["seen"].append(sorted(cols))
                             else:
                                 res["seen"].append(["<no lineage>"])
+                        elif script[k] == "dial":
+                            res["seen"].append(["into"] if "<default>.outd" in [str(t) for t in lr.target_tables] else ["<not a target>"])
                     res["source"] = [str(t) for t in lr.source_tables]
                     res["target"] = [str(t) for t in lr.target_tables]
                 except InjectedFault:
@@ -199,19 +208,19 @@ def replay(case):
     for e in case["log"]:
         r = e["r"]
         if e["e"] == "begin":
-            w.begin(r, e["p"], e["script"], e["silent"], e["fault"])
+            w.begin(r, e["p"], e["script"], e["silent"], e["fault"], e.get("dia", "ansi"))
             lens[r] = len(e["script"])
             progress[r] = 0
-            ev.append({"e": "begin", "r": r, "p": e["p"], "script": list(e["script"]), "silent": e["silent"], "fault": e["fault"],
+            ev.append({"e": "begin", "r": r, "p": e["p"], "script": list(e["script"]), "silent": e["silent"], "fault": e["fault"], "dia": e.get("dia", "ansi"),
                        "k": 0, "outcome": "none", "seen": [], "warnings": 0, "answers": w.answers()})
         elif e["e"] == "step":
             if e["k"] <= lens[r]:
                 w.step(r)
-            ev.append({"e": "step", "r": r, "p": "none", "script": [], "silent": False, "fault": 0, "k": e["k"],
+            ev.append({"e": "step", "r": r, "p": "none", "script": [], "silent": False, "fault": 0, "dia": "ansi", "k": e["k"],
                        "outcome": "none", "seen": [], "warnings": 0, "answers": w.answers()})
         elif e["e"] == "exit":
             res = w.finish(r)
-            ev.append({"e": "exit", "r": r, "p": "none", "script": [], "silent": False, "fault": 0, "k": 0,
+            ev.append({"e": "exit", "r": r, "p": "none", "script": [], "silent": False, "fault": 0, "dia": "ansi", "k": 0,
                        "outcome": res["outcome"], "seen": res["seen"], "warnings": res["warnings"], "answers": w.answers(),
                        "taps": [list(x) for x in w.ctl[r].events][:40]})
     for r in list(w.ctl):
